@@ -475,6 +475,73 @@ fn values(m: &Model, ctx: &mut Ctx) {
             Err(e) => ctx.fail_closed("C18.values", &format!("[{}]: {}", what, e)),
         }
     }
+    // character string values: what is rendered is one TypeScript string literal that denotes the ASN.1 string
+    fn js_unescape(lit: &str) -> Option<String> {
+        let inner = lit.strip_prefix('"')?.strip_suffix('"')?;
+        let mut out = String::new();
+        let mut it = inner.chars();
+        while let Some(c) = it.next() {
+            match c {
+                '"' | '\n' | '\r' | '\u{2028}' | '\u{2029}' => return None, // ends the literal / not allowed inside one
+                '\\' => match it.next()? {
+                    'n' => out.push('\n'),
+                    'r' => out.push('\r'),
+                    't' => out.push('\t'),
+                    '"' => out.push('"'),
+                    '\\' => out.push('\\'),
+                    'u' => {
+                        let hex: String = it.by_ref().take(4).collect();
+                        out.push(char::from_u32(u32::from_str_radix(&hex, 16).ok()?)?);
+                    }
+                    _ => return None,
+                },
+                c => out.push(c),
+            }
+        }
+        Some(out)
+    }
+    let string_cases: Vec<(&str, &str)> = vec![("plain", "abc"), ("quote", "he said \"hi\""), ("backslash", "a\\b"), ("line break", "a\nb"), ("template characters", "`${x}`"), ("empty", "")];
+    for (ctor, wrap) in [("String", false), ("LinkedCharStringValue", true)] {
+        for (what, text) in &string_cases {
+            ctx.oblige("C18.values", &format!("string:{}:{}", ctor, what), true);
+            let v = if wrap { Val::Ctor(ctor.into(), vec![Val::ctor("UTF8String"), Val::Str(text.to_string())], BTreeMap::new()) } else { Val::Ctor(ctor.into(), vec![Val::Str(text.to_string())], BTreeMap::new()) };
+            let mut env = Env::new();
+            env.insert(p.clone(), v);
+            match ev.eval_fn_body(&f.block, &mut env) {
+                Ok(Val::Ctor(ok, pl, _)) if ok == "Ok" => {
+                    let got = match pl.first() { Some(Val::Str(s)) => s.clone(), Some(o) => o.show(), None => "?".into() };
+                    if js_unescape(&got).as_deref() != Some(*text) {
+                        ctx.violate("C18.values", &format!("string-literal:{}", ctor), &f.file, f.line,
+                            &format!("the character string value {:?} ({}) is rendered `{}`, which is not one TypeScript string literal denoting that string: quotation marks, backslashes and line breaks must be escaped", text, what, got));
+                    }
+                }
+                Ok(o) => ctx.fail_closed("C18.values", &format!("[string {}]: {}", what, o.show().chars().take(120).collect::<String>())),
+                Err(e) => ctx.fail_closed("C18.values", &format!("[string {}]: {}", what, e)),
+            }
+        }
+    }
+    // SEQUENCE / SET values: the member names are the ones of the declaration (hyphens mangled)
+    {
+        ctx.oblige("C18.values", "struct-member-names", true);
+        let field = Val::Tuple(vec![Val::Str("a-b".into()), Val::ctor("Integer"), Val::Ctor("Explicit".into(), vec![int(5)], BTreeMap::new())]);
+        let hook = |_: &Evaluator, name: &str, a: &[Val]| -> Option<Result<Val, String>> {
+            if name == ".value" { if let Some(Val::Ctor(_, p, _)) = a.first() { return p.first().cloned().map(Ok); } }
+            None
+        };
+        let ev2 = Evaluator { consts: &consts, call_hook: &hook, inline: Some(&inl) };
+        let mut env = Env::new();
+        env.insert(p.clone(), Val::Ctor("LinkedStructLikeValue".into(), vec![Val::List(vec![field])], BTreeMap::new()));
+        match ev2.eval_fn_body(&f.block, &mut env) {
+            Ok(Val::Ctor(ok, pl, _)) if ok == "Ok" => {
+                let got = match pl.first() { Some(Val::Str(s)) => s.chars().filter(|c| !c.is_whitespace()).collect::<String>(), Some(o) => o.show(), None => "?".into() };
+                if !got.contains("a_b:5") {
+                    ctx.violate("C18.values", "struct-member-names", &f.file, f.line, &format!("the value `{{ a-b 5 }}` is rendered `{}`: the member must be named `a_b` like in the type's declaration (`a-b: 5` is not TypeScript)", got));
+                }
+            }
+            Ok(o) => ctx.fail_closed("C18.values", &format!("[struct value]: {}", o.show().chars().take(120).collect::<String>())),
+            Err(e) => ctx.fail_closed("C18.values", &format!("[struct value]: {}", e)),
+        }
+    }
 }
 
 fn shapes(m: &Model, ctx: &mut Ctx) {
